@@ -168,6 +168,7 @@ func (pmt *Payment) ValidateWithContext(ctx context.Context) error {
 			validation.Required,
 			cal.DateNotZero(),
 		),
+		validation.Field(&pmt.ValueDate, cal.DateNotZero()),
 		validation.Field(&pmt.Currency,
 			validation.Required,
 			currency.CanConvertInto(pmt.ExchangeRates, r.GetCurrency()),
